@@ -12,6 +12,7 @@
 //	forged-signature-admitted / -accepted        ... where the flaw is a made-up signature of a validator the evidence accuses
 //	expired-admitted / expired-accepted          expired by BOTH limits, yet admitted / accepted in a block
 //	expired-pending-accepted                     ... because it was still pending (verification skipped)
+//	expired-pending-accepted-stale-schedule      ... the same, for evidence that came in when the pool already held younger evidence
 //	committed-became-pending / committed-accepted-again / duplicate-in-list-accepted   evidence used twice
 //	committed-still-pending-after-apply-crash / evidence-in-two-blocks-after-apply-crash
 //	                                             the same, for a block whose EvidencePool.Update was lost to a crash inside ApplyBlock
@@ -171,6 +172,8 @@ type sim struct {
 	committed map[string]int64  // evidence hash -> height of the block that carries it
 	unseen    map[string]bool   // committed by a block whose Update the pool never received (crash inside ApplyBlock)
 	gone      map[string]bool   // vids of expired items that left the pool
+	late      map[string]bool   // evidence hash -> when it became pending the pool had already held younger evidence (since its last start)
+	maxSeenH  int64             // greatest evidence height the pool has held since its last start
 	buffer    []simcore.Op      // recipes of reported vote pairs whose height is not yet flushed
 	reports   []simcore.Op
 	skew      int // known divergence of Size() from the number of pending items
@@ -180,7 +183,7 @@ type sim struct {
 
 func newSim(env *simcore.Env, cfg simcore.Op) simcore.Sim {
 	s := &sim{env: env, cfg: cfg, items: map[string]*item{}, byVid: map[string]*item{}, pending: map[string]string{},
-		durable: map[string]bool{}, committed: map[string]int64{}, unseen: map[string]bool{}, gone: map[string]bool{}}
+		durable: map[string]bool{}, committed: map[string]int64{}, unseen: map[string]bool{}, gone: map[string]bool{}, late: map[string]bool{}}
 	s.proxy = &poolProxy{s: s}
 	s.evDB = simdisk.NewCrashDB("evidence", nil, nil)
 	s.blkDB = simdisk.NewCrashDB("blockstore", nil, nil)
@@ -1064,6 +1067,21 @@ func (s *sim) reconcile(x *expect, ctx string) {
 		if _, ok := np[h]; !ok {
 			s.gone[vid] = true
 			delete(s.durable, h)
+			delete(s.late, h)
+		}
+	}
+	// late arrivals: evidence older than something the pool already held when it came in
+	seenH := s.maxSeenH
+	for h, vid := range np {
+		it := s.byVid[vid]
+		if it == nil {
+			continue
+		}
+		if _, old := s.pending[h]; !old && seenH > it.evH {
+			s.late[h] = true
+		}
+		if it.evH > s.maxSeenH {
+			s.maxSeenH = it.evH
 		}
 	}
 	s.pending = np
@@ -1199,6 +1217,9 @@ func (s *sim) acceptedSig(p pcause) (string, string) {
 		}
 		return "invalid-accepted", d + " does not prove what it claims"
 	case "expired":
+		if s.pending[p.it.hash] != "" && s.late[p.it.hash] {
+			return "expired-pending-accepted-stale-schedule", d + fmt.Sprintf(" is expired by both limits (chain height %d, max age %d blocks / %v) but still pending in the pool: it came in when the pool already held younger evidence, and the pool expects nothing to expire before the oldest evidence it saw at its last pruning; pending duplicate-vote evidence is not verified again", s.H(), s.maxB, s.maxD)
+		}
 		if s.pending[p.it.hash] != "" {
 			return "expired-pending-accepted", d + fmt.Sprintf(" is expired by both limits (chain height %d, max age %d blocks / %v) but still pending in the pool, which skips verification of pending duplicate-vote evidence", s.H(), s.maxB, s.maxD)
 		}
@@ -1878,6 +1899,7 @@ func (s *sim) reopenPool(ctx string) {
 	}
 	s.pool = pool
 	s.skew = 0
+	s.late, s.maxSeenH = map[string]bool{}, 0 // a starting pool looks at everything it holds
 	if len(s.buffer) > 0 {
 		s.env.Count("probe.buffer_forgotten_at_restart")
 	}
